@@ -241,6 +241,13 @@ class World:
         return self.import_module("ckl." + modshort).ns[name]
 
     # ------------------------------------------------------------------ hooks with defaults
+    def havoc_class(self):
+        c = self.builtin_classes.get("HavocObject")
+        if c is None:
+            c = PyClass("HavocObject", None, [self.object_cls], builtin=True)
+            self.builtin_classes["HavocObject"] = c
+        return c
+
     def opaque_check(self, interp, obj, name, node):
         """An opaque value stands for *any* kind: sound only while no concrete kind overrides what is used."""
         subs = self.__dict__.get("_value_subs")
@@ -266,6 +273,8 @@ class World:
                 raise OutOfSubset(f"kind split needed: method '{name}' called on an opaque value at `{anchor(node) if node is not None else ''}`")
 
     def missing_attr(self, interp, obj, name, node):
+        if obj.cls.name == "HavocObject":
+            raise OutOfSubset(f"use of an object-valued local havocked by a loop without a declared abstraction (attribute {name})")
         h = self.hooks.get("missing_attr")
         if h:
             r = h(interp, obj, name, node)
